@@ -934,3 +934,53 @@ Qed.
 (** current variant: a non-empty key string made only of CR / LF is refused (it decodes to zero bytes) *)
 Lemma cf_blank_key_refused k : k <> [] -> cf_b64_len k = Some 0 -> cf_key_check cf_cur k = Some cf_E_key_length.
 Proof. intros Hk Hb. unfold cf_key_check. cbn [cf_v_key_strict cf_cur]. destruct k; [contradiction|]. cbn [is_empty]. rewrite Hb. reflexivity. Qed.
+
+(** * The rest of the redis section (redis.password, redis.username, redis.tls, redis.connection-idle-timeout) *)
+
+(* the store test on the Redis struct is the test of the start-up sequence *)
+Lemma cf_redis_store_set_agrees r x : cf_redis_store_set (cf_redis_resolve r x) = cf_store_configured (cf_resolve_all r).
+Proof. reflexivity. Qed.
+
+Lemma cf_run_x_well_formed v r x d : cf_x_flag_bad x = false -> cf_x_env_bad x = false -> cf_run_x v r x d = cf_run v r d.
+Proof. intros H1 H2. unfold cf_run_x, cf_run. rewrite H1, H2, !orb_false_r. reflexivity. Qed.
+
+Lemma cf_run_x_zero v r x d : cf_run_x v r x d = 0%Z ->
+  cf_x_flag_bad x = false /\ cf_x_env_bad x = false /\ cf_starts v r d = true.
+Proof.
+  unfold cf_run_x, cf_starts, cf_run.
+  destruct (cf_any_flag_bad r); cbn [orb]; [discriminate|].
+  destruct (cf_x_flag_bad x); [discriminate|].
+  destruct (cf_any_env_bad r); cbn [orb]; [discriminate|].
+  destruct (cf_x_env_bad x); [discriminate|].
+  intros H. rewrite H. repeat split; reflexivity.
+Qed.
+
+(* whatever the other redis settings are: an SSO mode that reaches ListenAndServe has redis.address or redis.uri *)
+Lemma cf_run_x_sso_store v r x d : cf_run_x v r x d = 0%Z -> cf_ssoenabled (cf_resolve_all r) = true ->
+  cf_redis_store_set (cf_redis_resolve r x) = true.
+Proof.
+  intros H He. apply cf_run_x_zero in H. destruct H as (_ & _ & Hs).
+  rewrite cf_redis_store_set_agrees. apply cf_store_configured_spec.
+  destruct (cf_starts_sso v r d Hs He) as [Hst _]. exact Hst.
+Qed.
+
+(* an SSO proxy with everything but a store; the redis section left at its defaults (redis.tls = true), or with
+   only a password: the Redis struct is not the zero value, and the process is refused for the missing store *)
+Definition cf_ex_proxy_nostore : cf_raw :=
+  mk_cf_raw cf_nossrc (cf_flb cf_ex_key32) (cf_fl "https://app.example.com") cf_nossrc cf_nossrc cf_nossrc cf_nossrc
+    cf_nossrc cf_nossrc cf_nossrc cf_nossrc cf_nossrc cf_nossrc (cf_fl "proxy") (cf_fl "sso") cf_nossrc
+    cf_nossrc (cf_fl "https://sso.example.com") cf_nossrc None None None None None None None
+    cf_tabs (cf_tfl true) cf_tabs cf_tabs cf_tabs [] [cf_ex_redis] [].
+Definition cf_ex_rest_default : cf_redis_rest := mk_cf_redis_rest cf_nossrc cf_nossrc cf_tabs cf_tabs.
+Definition cf_ex_rest_password : cf_redis_rest := mk_cf_redis_rest (cf_fl "pw") cf_nossrc (cf_tfl false) cf_tabs.
+
+Lemma cf_ex_nostore_refused d :
+  cf_redis_nonzero (cf_redis_resolve cf_ex_proxy_nostore cf_ex_rest_default) = true /\
+  cf_run_x cf_cur cf_ex_proxy_nostore cf_ex_rest_default d = Zpos cf_E_sso_store /\
+  cf_redis_nonzero (cf_redis_resolve cf_ex_proxy_nostore cf_ex_rest_password) = true /\
+  cf_run_x cf_cur cf_ex_proxy_nostore cf_ex_rest_password d = Zpos cf_E_sso_store.
+Proof. repeat split; vm_compute; reflexivity. Qed.
+
+Lemma cf_ex_proxy_rest_starts d : cf_run_x cf_cur cf_ex_proxy cf_ex_rest_default d = 0%Z /\
+  cf_ssoenabled (cf_resolve_all cf_ex_proxy) = true.
+Proof. split; vm_compute; reflexivity. Qed.
